@@ -5,7 +5,6 @@ import (
 	"encoding/binary"
 	"encoding/hex"
 	"fmt"
-	"sort"
 
 	"github.com/btcsuite/btcd/chaincfg/chainhash"
 	"github.com/btcsuite/btcd/wire"
@@ -38,6 +37,7 @@ type world struct {
 	bound []byte // contract address on srcID bound to the redeem keys
 
 	everSelected map[outpoint]int // outpoint -> step of the withdrawal that selected it
+	changeOps    map[outpoint]bool // outputs that entered the unspent set as returned change
 	deposits     []*deposit
 	built        []*builtTx // withdrawals whose transaction was built and is not fully signed
 	wctr         int64
@@ -46,6 +46,7 @@ type world struct {
 	sinceRestart bool // a restart happened and no withdrawal was built since
 	nBuilt       int
 	nRejected    int
+	hardUsed     int // expensive (search-exhausting) rejections attempted so far
 }
 
 type deposit struct {
@@ -88,20 +89,28 @@ func (w *world) exec(on func(t *e1.TxTrace), txs ...*types.Transaction) ([]*e1.T
 	if len(txs) == 0 {
 		return nil, true
 	}
-	traces, ok := w.h.Exec(txs...)
-	if !ok {
-		return nil, false
-	}
-	for _, t := range traces {
-		if on != nil {
-			on(t)
-			if w.run.Failed() {
-				return traces, false
+	good := true
+	// the per-transaction views are only exact before the block is committed: inspect there
+	traces, ok := w.h.ExecInspect(func(traces []*e1.TxTrace) {
+		for _, t := range traces {
+			if on != nil {
+				on(t)
+				if w.run.Failed() {
+					good = false
+					return
+				}
+			}
+			if !w.compare(t.Post, fmt.Sprintf("after tx %d of block %d", t.Index, t.Height)) {
+				good = false
+				return
 			}
 		}
-		if !w.compare(t.Post, fmt.Sprintf("after tx %d of block %d", t.Index, t.Height)) {
-			return traces, false
-		}
+	}, txs...)
+	if !ok || !good || w.run.Failed() {
+		return traces, false
+	}
+	if !w.compare(w.h.View(), "after the commit of the block") {
+		return traces, false
 	}
 	w.run.State([]byte(w.digest()))
 	return traces, true
@@ -250,6 +259,9 @@ func (w *world) fund(st kernel.Step) bool {
 		if val > 2_000_000_000_000 {
 			val = 2_000_000_000_000
 		}
+		if val < 1 {
+			val = 1
+		}
 		if len(w.keys[ki].unspent)+len(ds) >= 40 {
 			break
 		}
@@ -372,15 +384,6 @@ func (w *world) setParam(st kernel.Step) bool {
 func msgID(seed uint64, n int64) []byte {
 	h := sha256.Sum256(binary.LittleEndian.AppendUint64(binary.LittleEndian.AppendUint64([]byte("withdrawal"), seed), uint64(n)))
 	return h[:]
-}
-
-func sortOps(m map[outpoint]int) []outpoint {
-	out := make([]outpoint, 0, len(m))
-	for o := range m {
-		out = append(out, o)
-	}
-	sort.Slice(out, func(i, j int) bool { return out[i].String() < out[j].String() })
-	return out
 }
 
 var _ = hex.EncodeToString
